@@ -683,8 +683,36 @@ func executeDirectives(inst *Instance, filename string,
 	return nil
 }
 
-func startServers(serverList []Server, inst *Instance, restartFds map[string]restartTriple) error {
+func startServers(serverList []Server, inst *Instance, restartFds map[string]restartTriple) (err error) {
 	errChan := make(chan error, len(serverList))
+
+	// If any server fails to obtain its listener, the instance is
+	// discarded: close the listeners and packet conns that this call has
+	// opened so far (or duplicated from the old instance), otherwise their
+	// sockets stay bound for the life of the process with nobody
+	// accepting on them.
+	var ln net.Listener
+	var pc net.PacketConn
+	defer func() {
+		if err == nil {
+			return
+		}
+		if ln != nil {
+			ln.Close()
+		}
+		if pc != nil {
+			pc.Close()
+		}
+		for _, s := range inst.servers {
+			if s.listener != nil {
+				s.listener.Close()
+			}
+			if s.packet != nil {
+				s.packet.Close()
+			}
+		}
+		inst.servers = nil
+	}()
 
 	// used for signaling to error logging goroutine to terminate
 	stopChan := make(chan struct{})
@@ -692,11 +720,7 @@ func startServers(serverList []Server, inst *Instance, restartFds map[string]res
 	stopWg := &sync.WaitGroup{}
 
 	for _, s := range serverList {
-		var (
-			ln  net.Listener
-			pc  net.PacketConn
-			err error
-		)
+		ln, pc = nil, nil
 
 		// if performing an upgrade, obtain listener file descriptors
 		// from parent process
@@ -782,6 +806,7 @@ func startServers(serverList []Server, inst *Instance, restartFds map[string]res
 		}
 
 		inst.servers = append(inst.servers, ServerListener{server: s, listener: ln, packet: pc})
+		ln, pc = nil, nil
 	}
 
 	for _, s := range inst.servers {
